@@ -149,7 +149,7 @@ func longStringTrees(c *fw.Ctx, body func(tree *spec.Spec, r *rng.R)) {
 
 // deepOutputTrees: chains far deeper than the random trees (serializer recursion, nested buffers).
 func deepOutputTrees(c *fw.Ctx, body func(tree *spec.Spec, r *rng.R)) {
-	depths := []int{40, 129, 1000, 5000}
+	depths := []int{40, 129, 1000, 5000, 9999, 10001, 10002} // (10000 is where encoding/json's scanner gives up)
 	if !c.Quick() {
 		depths = append(depths, 20000)
 	}
